@@ -173,9 +173,21 @@ func transition(cur ConnState, ev fsmEvent) (ConnState, bool) {
 	return cur, false
 }
 
+// stateClosed is the terminal value of the state word, stored when evClose latches the supervisor
+// closed. It reads as NotConnected (State) but matches none of the Commit* CAS sources, so a
+// synchronous commit racing or following the voluntary Close (a peer being adopted, a reconnect dial
+// completing) can no longer move State() off NotConnected after the latch. A fresh Open installs a
+// fresh supervisor, whose state word starts at NotConnected again.
+const stateClosed = ^uint32(0)
+
 // State returns the current logical E37 state via a lock-free atomic read.
 func (s *supervisor) State() ConnState {
-	return ConnState(s.state.Load())
+	v := s.state.Load()
+	if v == stateClosed {
+		return NotConnectedState
+	}
+
+	return ConnState(v)
 }
 
 // CommitConnected performs the synchronous TCP-up commit (symmetric with CommitSelected / §7.D):
@@ -325,7 +337,10 @@ func (s *supervisor) step(ev fsmEvent) {
 
 	if ev == evClose {
 		// Latch closed (I2) BEFORE teardown: no event queued behind this evClose may move state again.
+		// The state word is latched too (stateClosed): a plain Store, so it also overrides a Commit*
+		// that landed since this step loaded the state.
 		s.closed = true
+		s.state.Store(stateClosed)
 		if e := s.closeEpoch.Load(); e != nil {
 			e.teardown(s.resolveCloseTimeout())
 		}
